@@ -28,7 +28,7 @@ COMPONENTS = {"real": ["EoN.Gillespie_complex_contagion", "EoN._ListDict_", "EoN
 
 
 def plan(tier):
-    return [("walk", 900 if tier == "quick" else 50000)]
+    return [("walk", 3500 if tier == "quick" else 100000)]
 
 
 def run_one(family, rng, idx, tier):
